@@ -37,6 +37,7 @@ def run(fb, rep, tier):
     c3_partition(fb, rep)
     c4_region(fb, rep)
     c5_probe_scope(fb, rep, 'C12.5')
+    c6_block_skip(fb, rep, 'C12.6')
 
 
 # ----------------------------------------------------------------------------- .1
@@ -707,3 +708,52 @@ def c5_probe_scope(fb, rep, clause):
         rep.ob(clause, 'K4 probe scope', '%s answers only for positions without castling rights (tested here or in the position import it requires)' % (f.name if '<' in f.name else f.sname),
                bool(hits) and good, f.where, '%d answering returns, %d behind a successful import; import: %d of %d successful returns behind a castle-mask test' % (
                    len(hits), len(via_import), len(sok), len(sr)), f.sname)
+
+
+# ----------------------------------------------------------------------------- .6 block skipping
+
+def c6_block_skip(fb, rep, clause):
+    """K11 constant agreement in the retrograde pass of TBGenerator::generate: the per-block "nothing new was mated
+    here" flags cover blocks of 2^S indices; a block is skipped with `if ((idx & M) == 0 && !flag[idx >> S])
+    { idx += K; continue; }` inside `for (...; idx++)`.  The skip lands on the first index of the next block exactly
+    when K + 1 == M + 1 == 2^S, and the flag vector has nPos / 2^S entries.  Any other combination silently leaves
+    positions out of the retrograde pass (wrong distances, wins recorded as draws)."""
+    gens = [f for f in fb.find('TBGenerator::generate')]
+    n = 0
+    for f in gens:
+        tag = f.name
+        for bid, blk in f.blocks.items():
+            if bid in f.dead:
+                continue
+            for e in blk['ev']:
+                if not (e.get('k') == 'asg' and e.get('op') == '+=' and isinstance(e.get('l'), dict) and e['l'].get('k') == 'var' and isinstance(e.get('r'), dict) and 'cv' in e['r']):
+                    continue
+                vid = e['l']['id']
+                K = e['r']['cv']
+                # guard (idx & M) == 0 and a flag test flag[idx >> S]
+                gt = G.guard_trees(f, set(f.blocks), bid, skip_loops=True)
+                M = S = None
+                for g, sd in gt:
+                    for nd in walk(g):
+                        if nd.get('k') == 'bin' and nd.get('op') == '&' and (_s(nd.get('l')) or {}).get('id') == vid and 'cv' in (_s(nd.get('r')) or {}):
+                            M = _s(nd['r'])['cv']
+                        if nd.get('k') == 'bin' and nd.get('op') == '>>' and (_s(nd.get('l')) or {}).get('id') == vid and 'cv' in (_s(nd.get('r')) or {}):
+                            S = _s(nd['r'])['cv']
+                if M is None:
+                    continue
+                # the enclosing for loop increments the same variable by one
+                h = G.enclosing_loop_stmt(f, bid)
+                inc = any(ev.get('k') == 'incdec' and ev.get('op') == '++' and isinstance(ev.get('e'), dict) and ev['e'].get('id') == vid for b2, blk2 in f.blocks.items() for ev in blk2['ev'])
+                cont = (blk.get('term') or {}).get('c') == 'ContinueStmt' or any((f.blocks[s_].get('term') or {}).get('c') == 'ContinueStmt' for s_ in blk['succ'])
+                n += 1
+                ok = inc and K + 1 == M + 1 and (S is None or (1 << S) == M + 1) and (M & (M + 1)) == 0
+                rep.ob(clause, 'K11 constant agreement', '%s: the block skip advances to the first index of the next block (skip + loop increment = block size = mask + 1 = 2^shift)' % tag,
+                       ok, '%s:%s' % (f.file, e.get('ln')), 'skip %s, mask %s, shift %s, loop increment present: %s' % (K, M, S, inc), f.sname)
+        # the flag vectors are sized nPos / block size
+    rep.floor(clause, 'block-skip sites in TBGenerator::generate', n, 2)
+
+
+def _s(t):
+    while isinstance(t, dict) and t.get('k') == 'cast':
+        t = t.get('e')
+    return t
